@@ -30,6 +30,7 @@ type sched struct {
 	spin  bool
 	wake  []chan struct{}
 	done  chan struct{}
+	joined chan int // every task reports here after its last access: a real edge task -> orchestrating goroutine only
 
 	// The fields below are touched by every task; in the race world only from
 	// //go:norace functions and only as fixed-size arrays.
@@ -63,7 +64,7 @@ func (w *W) runTasks() {
 	if n > maxTasks-1 {
 		n = maxTasks - 1
 	}
-	s := &sched{w: w, n: n, spin: raceEnabled, done: make(chan struct{})}
+	s := &sched{w: w, n: n, spin: raceEnabled, done: make(chan struct{}), joined: make(chan int, n+1)}
 	s.stay = sc.Sched.StayPermille
 	if s.stay <= 0 {
 		s.stay = 800
@@ -107,12 +108,16 @@ func (w *W) runTasks() {
 			s.park(id)
 			w.runTaskOps(id, ops)
 			s.exit(id)
+			s.joined <- id
 		}()
 	}
 	// release the first task
 	first := 1 + s.choose(n, false)
 	s.release(first)
 	<-s.done
+	for i := 0; i < n; i++ {
+		<-s.joined
+	}
 	w.quiet = false
 	w.stats["sched.yields"] = s.yields
 	w.stats["sched.switches"] = s.switches
